@@ -115,7 +115,7 @@ macro_rules! c03_poisson_rej {
 }
 //@ id: c03_poisson_rejection_f64
 //@ prop: C03
-//@ tier: quick
+//@ tier: thorough
 //@ cap: 1500
 //@ funcs: Poisson::<f64>::new; RejectionMethod::<f64>::sample (steps N, I, S, Q, one pass of E/H, F); Normal::sample
 //@ bounds: lambda in [12, 1e15]; returns within 4 words (steps N/I/S/Q and one E/H trial)
@@ -123,7 +123,7 @@ macro_rules! c03_poisson_rej {
 c03_poisson_rej!(c03_poisson_rejection_f64, f64, 1e15);
 //@ id: c03_poisson_rejection_f32
 //@ prop: C03
-//@ tier: quick
+//@ tier: thorough
 //@ cap: 1500
 //@ funcs: Poisson::<f32>::new; RejectionMethod::<f32>::sample
 //@ bounds: lambda in [12, 1e7]; returns within 4 words
